@@ -57,7 +57,7 @@ class C07(Check):
                 idx += 1
                 if idx % nshards != shard:
                     continue
-                if tier == 'quick' and ln == m and idx % 6:
+                if tier == 'quick' and ln == m and idx % 12:
                     continue
                 t = idx % 3
                 items = [t]
